@@ -215,20 +215,20 @@ func (m *c09) state() string {
 func (m *c09) invariants(op string) (string, string) {
 	rb := m.rb
 	if rb.Buffered() != len(m.ref) {
-		return fmt.Sprintf("after %s: Buffered()=%d, reference holds %d bytes %s", op, rb.Buffered(), len(m.ref), m.state()), op + ":buffered"
+		return fmt.Sprintf("after %s: Buffered()=%d, reference holds %d bytes %s", op, rb.Buffered(), len(m.ref), m.state()), opName(op) + ":buffered"
 	}
 	if rb.Buffered()+rb.Available() != rb.Cap() {
-		return fmt.Sprintf("after %s: Buffered %d + Available %d != Cap %d", op, rb.Buffered(), rb.Available(), rb.Cap()), op + ":cap"
+		return fmt.Sprintf("after %s: Buffered %d + Available %d != Cap %d", op, rb.Buffered(), rb.Available(), rb.Cap()), opName(op) + ":cap"
 	}
 	if rb.IsEmpty() != (len(m.ref) == 0) {
-		return fmt.Sprintf("after %s: IsEmpty()=%v but content has %d bytes %s", op, rb.IsEmpty(), len(m.ref), m.state()), op + ":isempty"
+		return fmt.Sprintf("after %s: IsEmpty()=%v but content has %d bytes %s", op, rb.IsEmpty(), len(m.ref), m.state()), opName(op) + ":isempty"
 	}
 	if rb.IsFull() != (len(m.ref) > 0 && len(m.ref) == rb.Cap()) {
-		return fmt.Sprintf("after %s: IsFull()=%v with %d bytes, Cap %d", op, rb.IsFull(), len(m.ref), rb.Cap()), op + ":isfull"
+		return fmt.Sprintf("after %s: IsFull()=%v with %d bytes, Cap %d", op, rb.IsFull(), len(m.ref), rb.Cap()), opName(op) + ":isfull"
 	}
 	h, t := rb.Peek(-1)
 	if got := append(append([]byte{}, h...), t...); !bytes.Equal(got, m.ref) {
-		return fmt.Sprintf("after %s: content differs from reference FIFO: %s %s", op, diff(got, m.ref), m.state()), op + ":content"
+		return fmt.Sprintf("after %s: content differs from reference FIFO: %s %s", op, diff(got, m.ref), m.state()), opName(op) + ":content"
 	}
 	return "", ""
 }
@@ -480,4 +480,14 @@ func replayC09(t *testing.T, path string) {
 		return
 	}
 	fmt.Println("REPLAY-OK property=C09 (history no longer violates)")
+}
+
+// opName strips the arguments from a rendered operation (signatures must not depend on sizes).
+func opName(op string) string {
+	for i := 0; i < len(op); i++ {
+		if op[i] == '(' {
+			return op[:i]
+		}
+	}
+	return op
 }
